@@ -99,7 +99,12 @@ def runBuilder (toks : List String) : String :=
   | [ic, n, sch] =>
     let xs := List.range n.toNat!
     let sched := if sch == "-" then [] else sch.toList.map (· == '1')
-    match Builder.run ic.toNat! xs sched with
+    -- growth rule as observed on the current source: next capacity = the next entry of the extracted chain
+    let rec lookup : List Nat → Nat → Option Nat
+      | c :: n :: rest, cap => if c == cap then some n else lookup rest cap
+      | _, _ => none
+    let grow : Nat → Nat := fun cap => (lookup Edn.Generated.Tables.builderGrowth cap).getD (growHalf cap)
+    match Builder.run grow ic.toNat! xs sched with
     | .addFailed i => s!"addfail {i}"
     | .finished c none => s!"null count={c}"
     | .finished c (some (.heap, ys)) => s!"heap count={c} " ++ (if ys == xs then "ok" else "CORRUPT")
